@@ -179,8 +179,17 @@ def r2(ctx, facts, model):
                             tried.append(w)
                     if why is None:
                         deps = b.deps(pos)
+                        # a value computed entirely outside the loop over the batch (parameters, constants, calls before the loop: `delete.len() - 1`)
+                        # is the same whichever element was rejected, so it cannot be that element's position
+                        in_loop = set()
+                        for nbb, some_t in loops:
+                            fwd = b.reachable(some_t)
+                            in_loop |= {x for x in fwd if nbb in b.reachable(x)} | {nbb}
+                        invariant = bool(loops) and pos[0] != "phi" and all(
+                            d[0] in ("const", "param", "op") or (d[0] == "call" and d[1] not in in_loop) for d in list(deps) + [pos]) and \
+                            any(d[0] in ("param", "const") for d in list(deps) + [pos])
                         understood = pos[0] in ("const", "param") or any(
-                            d[0] == "call" and b.term(d[1])["callee"].get("path") == "std::iter::Iterator::next" for d in deps) or tried
+                            d[0] == "call" and b.term(d[1])["callee"].get("path") == "std::iter::Iterator::next" for d in deps) or tried or invariant
                         if understood:
                             why = "error position %r is neither the enumerate() counter of the rejected element nor a count of the completed iterations (%s)" % (
                                 pos, "; ".join(sorted(set(tried))) or "no loop counter")
